@@ -7,6 +7,7 @@ import (
 	"go/ast"
 	"go/token"
 	"go/types"
+	"golang.org/x/tools/go/packages"
 	"sort"
 	"strconv"
 	"strings"
@@ -72,7 +73,27 @@ func (fc *FuncCtx) evalCall(st *State, call *ast.CallExpr) []Term {
 	}
 	fn, recvExpr := fc.calleeOf(call)
 	if fn == nil {
-		// call of a function value (closure, field): arguments evaluated, result arbitrary
+		// a local closure: a variable bound once to a function literal in this function and never reassigned is
+		// executed in place (captured variables are the caller's own)
+		if id, ok := unparen(call.Fun).(*ast.Ident); ok {
+			if lit := fc.localClosure(id); lit != nil {
+				if sig, ok := fc.typeOf(lit).(*types.Signature); ok {
+					key := fc.key + "$" + id.Name
+					depthOK := len(fc.inlineStack) < 4
+					for _, k := range fc.inlineStack {
+						if k == key {
+							depthOK = false
+						}
+					}
+					if depthOK {
+						cfn := types.NewFunc(lit.Pos(), fc.pkg.Types, id.Name, sig)
+						decl := &ast.FuncDecl{Name: &ast.Ident{Name: id.Name}, Type: lit.Type, Body: lit.Body}
+						return fc.inlineCallIn(st, call, cfn, nil, key, decl, fc.pkg)
+					}
+				}
+			}
+		}
+		// call of a function value (field, parameter): arguments evaluated, result arbitrary
 		for _, a := range call.Args {
 			fc.eval(st, a)
 		}
@@ -188,22 +209,39 @@ func contractParamNames(fn *types.Func, c *Contract) (recv string, params []stri
 		params = append(params, n)
 	}
 	if c != nil && len(c.Names) >= len(params)+b2i(sig.Recv() != nil)+sig.Results().Len() {
-		// names as of the time the contract was written (a renamed parameter keeps its contract name)
+		// names as of the time the contract was written: a RENAMED parameter keeps its contract name. A name is a
+		// renaming only if the current name is unknown to the snapshot and the snapshot's name is no longer a name of
+		// the signature (reordered parameters keep their own names)
+		inSnap := map[string]bool{}
+		for _, n := range c.Names {
+			inSnap[n] = true
+		}
+		inSig := map[string]bool{recv: true}
+		for _, p := range params {
+			inSig[p] = true
+		}
+		for i := 0; i < sig.Results().Len(); i++ {
+			inSig[sig.Results().At(i).Name()] = true
+		}
+		renamed := func(cur, snap string) bool {
+			return snap != "_" && cur != snap && !inSnap[cur] && !inSig[snap]
+		}
 		k := 0
 		if sig.Recv() != nil {
-			if c.Names[0] != "_" {
+			if renamed(recv, c.Names[0]) {
 				recv = c.Names[0]
 			}
 			k = 1
 		}
 		for i := range params {
-			if c.Names[k+i] != "_" {
+			if renamed(params[i], c.Names[k+i]) {
 				params[i] = c.Names[k+i]
 			}
 		}
 		defer func() {
 			for i := range results {
-				if n := c.Names[k+len(params)+i]; n != "_" {
+				cur := sig.Results().At(i).Name()
+				if n := c.Names[k+len(params)+i]; cur != "" && cur != "_" && renamed(cur, n) {
 					results[i] = n
 				}
 			}
@@ -1198,9 +1236,60 @@ func (fc *FuncCtx) canInline(key string, decl *ast.FuncDecl, fn *types.Func) str
 }
 
 func (fc *FuncCtx) inlineCall(st *State, call *ast.CallExpr, fn *types.Func, recvExpr ast.Expr, key string, decl *ast.FuncDecl) []Term {
+	return fc.inlineCallIn(st, call, fn, recvExpr, key, decl, fc.w.FuncPkg[key])
+}
+
+// localClosure: the function literal a local variable is bound to, when the variable is defined exactly once by
+// `f := func(...) {...}` (or `var f = func...`) in the function being verified and never assigned again.
+func (fc *FuncCtx) localClosure(id *ast.Ident) *ast.FuncLit {
+	obj, ok := fc.info.ObjectOf(id).(*types.Var)
+	if !ok || !fc.isLocal(obj) || fc.decl == nil || fc.decl.Body == nil {
+		return nil
+	}
+	var lit *ast.FuncLit
+	n := 0
+	ast.Inspect(fc.decl.Body, func(nd ast.Node) bool {
+		switch a := nd.(type) {
+		case *ast.AssignStmt:
+			for i, l := range a.Lhs {
+				if lid, ok := l.(*ast.Ident); ok && fc.info.ObjectOf(lid) == obj {
+					n++
+					if len(a.Lhs) == len(a.Rhs) {
+						if fl, ok := unparen(a.Rhs[i]).(*ast.FuncLit); ok && a.Tok == token.DEFINE {
+							lit = fl
+						}
+					}
+				}
+			}
+		case *ast.ValueSpec:
+			for i, nm := range a.Names {
+				if fc.info.ObjectOf(nm) == obj {
+					n++
+					if i < len(a.Values) {
+						if fl, ok := unparen(a.Values[i]).(*ast.FuncLit); ok {
+							lit = fl
+						}
+					}
+				}
+			}
+		case *ast.UnaryExpr:
+			if a.Op == token.AND {
+				if lid, ok := unparen(a.X).(*ast.Ident); ok && fc.info.ObjectOf(lid) == obj {
+					n += 2
+				}
+			}
+		}
+		return true
+	})
+	if n != 1 {
+		return nil
+	}
+	return lit
+}
+
+func (fc *FuncCtx) inlineCallIn(st *State, call *ast.CallExpr, fn *types.Func, recvExpr ast.Expr, key string, decl *ast.FuncDecl, pkg *packages.Package) []Term {
 	sig := fn.Type().(*types.Signature)
 	args := fc.bindArgs(st, call, fn, recvExpr, nil)
-	pkg := fc.w.FuncPkg[key]
 	fc.usedContracts["inlined:"+key] = true
 	// the callee runs in its own syntactic context
 	sInfo, sPkg, sDecl, sContract := fc.info, fc.pkg, fc.decl, fc.contract
